@@ -224,22 +224,56 @@ func (c *canoner) walk(v reflect.Value, tag string) {
 			return
 		}
 		if c.opts.MultisetTypes[t.Elem().String()] {
-			// render each element separately, sort
-			parts := make([]string, v.Len())
+			if c.opts.InlineRanges {
+				parts := make([]string, v.Len())
+				for i := 0; i < v.Len(); i++ {
+					sub := &canoner{opts: c.opts, onStack: c.onStack, curPath: c.curPath}
+					sub.walk(v.Index(i), tag)
+					parts[i] = sub.sb.String()
+				}
+				sort.Strings(parts)
+				c.sb.WriteString("{|" + strings.Join(parts, ",") + "|}")
+				return
+			}
+			// render each element separately; order by (skeleton, positions compared as numbers): that order is the same
+			// before and after a translation of the text, so translated results line up element by element
+			type el struct {
+				skel   string
+				ranges []RangeRec
+			}
+			els := make([]el, v.Len())
 			for i := 0; i < v.Len(); i++ {
 				sub := &canoner{opts: c.opts, onStack: c.onStack, curPath: c.curPath}
-				sub.opts.InlineRanges = true
-				sub.walk(v.Index(i), tag)
-				parts[i] = sub.sb.String()
-				// still collect ranges for C02
-				if !c.opts.InlineRanges {
-					sub2 := &canoner{opts: c.opts, onStack: c.onStack, curPath: c.curPath}
-					sub2.walk(v.Index(i), tag+"[]")
-					c.ranges = append(c.ranges, sub2.ranges...)
-				}
+				sub.walk(v.Index(i), tag+"[]")
+				els[i] = el{sub.sb.String(), sub.ranges}
 			}
-			sort.Strings(parts)
-			c.sb.WriteString("{|" + strings.Join(parts, ",") + "|}")
+			sort.SliceStable(els, func(i, j int) bool {
+				if els[i].skel != els[j].skel {
+					return els[i].skel < els[j].skel
+				}
+				a, b := els[i].ranges, els[j].ranges
+				for k := 0; k < len(a) && k < len(b); k++ {
+					if a[k].R.Filename != b[k].R.Filename {
+						return a[k].R.Filename < b[k].R.Filename
+					}
+					if a[k].R.Start.Byte != b[k].R.Start.Byte {
+						return a[k].R.Start.Byte < b[k].R.Start.Byte
+					}
+					if a[k].R.End.Byte != b[k].R.End.Byte {
+						return a[k].R.End.Byte < b[k].R.End.Byte
+					}
+				}
+				return len(a) < len(b)
+			})
+			c.sb.WriteString("{|")
+			for i, e := range els {
+				if i > 0 {
+					c.sb.WriteString(",")
+				}
+				c.sb.WriteString(e.skel)
+				c.ranges = append(c.ranges, e.ranges...)
+			}
+			c.sb.WriteString("|}")
 			return
 		}
 		c.sb.WriteString("[")
